@@ -77,8 +77,7 @@ Proof.
         apply user_sees_spec. tauto.
 Qed.
 
-(* specification, empty channel set: only the wildcard helps; in the default collection only the user's OWN
-   wildcard (roles are not consulted by authorizeAnyChannel's else-branch) *)
+(* specification, empty channel set: only the wildcard helps, held directly or through a role (both collections) *)
 Lemma can_see_any_spec_empty_named : forall u, can_see_any true u [] = true <-> In star (effective u).
 Proof.
   intros u. cbn [can_see_any]. unfold can_see_any_named. cbn [role_any].
@@ -87,15 +86,15 @@ Proof.
   - intros [H|[r [Hr H]]]; [tauto|]. right. exists r. split; [exact Hr | apply mem_In; exact H].
 Qed.
 
-Lemma can_see_any_spec_empty_default : forall u, can_see_any false u [] = true <-> In star (chans_of (u_self u)).
-Proof. intros u. cbn [can_see_any can_see_any_default]. apply mem_In. Qed.
+Lemma can_see_any_spec_empty_default : forall u, can_see_any false u [] = true <-> In star (effective u).
+Proof. intros u. cbn [can_see_any can_see_any_default]. rewrite user_sees_spec. tauto. Qed.
 
 (* the empty set is visible only with the wildcard *)
 Lemma empty_only_with_star : forall named u, can_see_any named u [] = true -> In star (effective u).
 Proof.
   intros [|] u H.
   - apply can_see_any_spec_empty_named. exact H.
-  - apply can_see_any_spec_empty_default in H. apply in_effective. tauto.
+  - apply can_see_any_spec_empty_default in H. exact H.
 Qed.
 
 (* wildcard held by the user itself: every set is visible, the empty one included *)
@@ -104,7 +103,7 @@ Proof.
   intros named u cs H. destruct cs as [|c cs].
   - destruct named.
     + apply can_see_any_spec_empty_named. apply in_effective. tauto.
-    + apply can_see_any_spec_empty_default. exact H.
+    + apply can_see_any_spec_empty_default. apply in_effective. tauto.
   - apply can_see_any_spec_nonempty; [congruence|]. right. apply in_effective. tauto.
 Qed.
 
@@ -150,8 +149,7 @@ Proof.
   destruct cs as [|c cs].
   - destruct named.
     + apply can_see_any_spec_empty_named. apply Hi. apply can_see_any_spec_empty_named. exact H.
-    + apply can_see_any_spec_empty_default. destruct Hm as [Hs _]. apply Hs.
-      apply can_see_any_spec_empty_default. exact H.
+    + apply can_see_any_spec_empty_default. apply Hi. apply can_see_any_spec_empty_default. exact H.
   - assert (Hne : c :: cs <> []) by congruence.
     apply can_see_any_spec_nonempty; [exact Hne|].
     apply can_see_any_spec_nonempty in H; [|exact Hne].
@@ -176,9 +174,24 @@ Proof.
     split; (intros [[x [Hx H]]|H]; [left; exists x; split; [apply He; exact Hx | exact H] | right; exact H]).
 Qed.
 
-(* the two collections agree except on the empty set *)
-Lemma named_default_agree_nonempty : forall u cs, cs <> [] -> can_see_any true u cs = can_see_any false u cs.
+(* the full specification, every channel set (the empty one included): some channel of the set is held, or "*" is *)
+Lemma can_see_any_spec : forall named u cs,
+  can_see_any named u cs = true <-> (exists c, In c cs /\ In c (effective u)) \/ In star (effective u).
 Proof.
-  intros u cs Hne. apply eq_true_iff_eq.
-  rewrite (can_see_any_spec_nonempty true u cs Hne), (can_see_any_spec_nonempty false u cs Hne). tauto.
+  intros named u cs. destruct cs as [|c t].
+  - split.
+    + intros H. right. apply (empty_only_with_star named u H).
+    + intros [[c [[] _]]|H]. destruct named; [apply can_see_any_spec_empty_named | apply can_see_any_spec_empty_default]; exact H.
+  - apply can_see_any_spec_nonempty. congruence.
 Qed.
+
+(* the two collections agree (since /repo a58a51d also on the empty set) *)
+Lemma named_default_agree : forall u cs, can_see_any true u cs = can_see_any false u cs.
+Proof. intros u cs. apply eq_true_iff_eq. rewrite !can_see_any_spec. tauto. Qed.
+
+Lemma named_default_agree_nonempty : forall u cs, cs <> [] -> can_see_any true u cs = can_see_any false u cs.
+Proof. intros u cs _. apply named_default_agree. Qed.
+
+(* a holder of "*" sees every set *)
+Lemma star_sees_all : forall named u cs, In star (effective u) -> can_see_any named u cs = true.
+Proof. intros named u cs H. apply can_see_any_spec. right. exact H. Qed.
